@@ -76,6 +76,8 @@ def gen_route(rng, L):
             r['pre'] = 0
     elif fam in ('file', 'filehandle'):
         r['pre'] = rng.choice([0, 0, 0, 3, 8, 16, 21])
+        if rng.random() < 0.1:
+            r['pre'] = rng.choice([32768, 32768, 32768 + 3, 65536, 32768 - 8])       # whole memory pages before the window
         r['lenmode'] = rng.choice(['none', 'whole', 'shorter'])
         r['post'] = 0 if r['lenmode'] in ('none', 'whole') else rng.choice([3, 8, 13, 24])
         r['give_offset'] = r['pre'] > 0 or rng.random() < 0.5
@@ -94,7 +96,8 @@ def gen_route(rng, L):
     elif fam == 'kw-value':
         r['how'] = rng.choice(['uint', 'int', 'bytes', 'uintle', 'Dtype-build', 'pack-uint'])
     else:
-        r['how'] = rng.choice(['add', 'radd', 'mul', 'join', 'and-ones', 'invert-twice', 'other-class', 'pack-bits', 'shift0'])
+        r['how'] = rng.choice(['add', 'radd', 'mul', 'join', 'and-ones', 'invert-twice', 'other-class', 'pack-bits', 'shift0',
+                               'prepend-str-to-empty', 'append-str-to-empty', 'iadd-str-to-empty', 'insert-str-in-empty', 'setslice-str-in-empty'])
     return r
 
 
@@ -105,6 +108,8 @@ def family_key(r, L, filebits=None):
         return 'bitarray-little-endian'
     if fam in ('file', 'filehandle'):
         off = 'offset0' if not r['pre'] else ('offset-aligned' if r['pre'] % 8 == 0 else 'offset-unaligned')
+        if r['pre'] >= 32768:
+            off += '>=page'
         lm = r['lenmode']
         if lm == 'none':
             ln = 'length-none'
@@ -310,6 +315,23 @@ def build(cls, bits, r, files):
         return cls(mk(BitStream, bits)), bits
     if how == 'pack-bits':
         return cls(bitstring.pack('bits', mk(Bits, bits))), bits
+    if how.endswith('-empty'):
+        # an empty mutable object that receives the bits as a token string (the parse of that string is shared by every later use of it)
+        if cls.__name__ not in util.MUTABLE:
+            raise Skip
+        tok = ('0b' + bits) if L else ''
+        t = cls()
+        if how.startswith('prepend'):
+            t.prepend(tok)
+        elif how.startswith('append'):
+            t.append(tok)
+        elif how.startswith('iadd'):
+            t += tok
+        elif how.startswith('insert'):
+            t.insert(tok, 0)
+        else:
+            t[0:0] = tok
+        return t, bits
     if not L:
         raise Skip
     return mk(cls, bits) << 0, bits
@@ -474,11 +496,14 @@ def judge(ctx, case):
 
 def gen_case(ctx):
     rng = ctx.rng
-    L = rng.choice([0, 1, 5, 8, 9, 16, 24, 33, 64, 100, 128, 257] + ([] if ctx.quick else [1000, 4097]))
+    L = rng.choice([0, 1, 5, 8, 9, 16, 24, 33, 64, 100, 128, 257, 2001, 2005] + ([] if ctx.quick else [1000, 4097, 2000, 2003]))
     bits = util.content(rng, L)
     cname = rng.choice(util.CLASS_NAMES)
     muts = rng.sample(list(MUTATORS), 6) if ctx.quick else None
-    return {'cls': cname, 'bits': bits, 'route': gen_route(rng, L), 'lsb0': rng.random() < 0.3, 'salt': rng.getrandbits(32), 'mutators': muts}
+    route = gen_route(rng, L)
+    if route.get('pre', 0) >= 32768 and rng.random() < 0.4:
+        bits = ''                       # the window starts exactly where the file (or its last page) ends
+    return {'cls': cname, 'bits': bits, 'route': route, 'lsb0': rng.random() < 0.3, 'salt': rng.getrandbits(32), 'mutators': muts}
 
 
 DIRECTED = [
